@@ -228,7 +228,7 @@ def run(ctx):
     # code -> spec, real threads: plain threads, threads inside their own running asyncio loop (calling from a
     # coroutine / from a callback of that loop) and threads running their own IOLoop add_callback numbered series
     # on an otherwise idle target loop; a third of the runs use only loop-running producers
-    m = ctx.pick(30, 1000)
+    m = ctx.pick(30, 400)
     pure = [["asyncio_coro"], ["asyncio_cb"], ["ioloop"], ["asyncio_coro", "ioloop", "asyncio_cb"]]
     jobs = []
     for i in range(m):
@@ -240,6 +240,13 @@ def run(ctx):
     info = {t["id"]: (t.pop("gave_up"), t.pop("stuck"), t["kinds"]) for t in ct}
     ctx.note("cross_thread_runs", {"runs": m, "gave_up": sum(1 for v in info.values() if v[0]),
                                    "stuck": sum(1 for v in info.values() if v[1])})
+    # A run that hit the 180 s wall-clock guard (which exists only so that nothing hangs) without the
+    # state-based `stuck` condition is INCONCLUSIVE (overloaded machine), never a verdict: such runs are
+    # left out of the validation; if too many are inconclusive the check fails as machinery, not as a violation.
+    inconclusive = [t["id"] for t in ct if info[t["id"]][0] and not info[t["id"]][1]]
+    if len(inconclusive) > max(3, m // 5):
+        raise framework.Machinery("%d of %d threaded runs hit the wall-clock guard (machine overloaded)" % (len(inconclusive), m))
+    ct = [t for t in ct if t["id"] not in set(inconclusive)]
     ctx.mc("loop", "CrossThread", "MC_CrossThread.cfg", required_actions=["Begin", "Added", "Run", "Sleep", "WakeUp", "Drain"])
     ctx.validate("loop", "Trace_CrossThread", "Trace_CrossThread.cfg", ct, label="c2s-threads",
                  sig_fn=lambda t, bad, l: {"spec": "CrossThread", "nt": t["cfg"]["nt"], "event": bad.get("a") if bad else None,
